@@ -27,5 +27,5 @@ TraceSpec == TraceInit /\ [][TraceNext]_v
 TraceAccepted ==
   LET d == TLCGet("stats").diameter IN
   IF d - 1 = Len(TraceLog) THEN TRUE
-  ELSE Print(<<"@@REJECT", d, IF d <= Len(TraceLog) THEN TraceLog[d] ELSE "end">>, FALSE)
+  ELSE Print(<<"@@REJECT", d, "record">>, FALSE)
 =============================================================================
